@@ -72,8 +72,55 @@ macro_rules! col {
     };
 }
 
+/// Free-running pass for C14 (run under Miri, whose data-race detector sees unsynchronised
+/// accesses that a cooperative scheduler cannot): real threads search one shared automaton with
+/// every method at once; results must equal the sequential ones.
+fn race() {
+    let pats = ["a", "ab", "bab", "b", "\u{4e16}a"];
+    for kind in [MatchKind::Standard, MatchKind::LeftmostLongest, MatchKind::LeftmostFirst] {
+        let b: std::sync::Arc<BA<u32>> = std::sync::Arc::new(BB::new().match_kind(kind).build(pats).unwrap());
+        let c: std::sync::Arc<CA<u32>> = std::sync::Arc::new(CB::new().match_kind(kind).build(pats).unwrap());
+        let hays = ["abab\u{4e16}ab", "bab", "\u{4e16}a\u{4e16}"];
+        let work = move |b: &BA<u32>, c: &CA<u32>, t: usize| -> Vec<Vec<M>> {
+            let mut out = Vec::new();
+            for i in 0..hays.len() {
+                let h = hays[(i + t) % hays.len()];
+                if kind == MatchKind::Standard {
+                    out.push(col!(b.find_iter(h)));
+                    out.push(col!(b.find_overlapping_iter_from_iter(h.bytes())));
+                    out.push(col!(b.find_overlapping_no_suffix_iter(h)));
+                    out.push(col!(c.find_iter(h)));
+                    out.push(col!(unsafe { c.find_overlapping_iter_from_iter(h.bytes()) }));
+                    out.push(col!(c.find_overlapping_no_suffix_iter(h)));
+                } else {
+                    out.push(col!(b.leftmost_find_iter(h)));
+                    out.push(col!(c.leftmost_find_iter(h)));
+                }
+            }
+            out
+        };
+        let expected: Vec<Vec<Vec<M>>> = (0..3).map(|t| work(&b, &c, t)).collect();
+        let before = (b.serialize(), c.serialize());
+        let handles: Vec<_> = (0..3)
+            .map(|t| {
+                let (b, c) = (b.clone(), c.clone());
+                std::thread::spawn(move || work(&b, &c, t))
+            })
+            .collect();
+        for (t, h) in handles.into_iter().enumerate() {
+            assert_eq!(h.join().unwrap(), expected[t], "concurrent searches changed a result");
+        }
+        assert!(before == (b.serialize(), c.serialize()), "the automaton changed during searches");
+    }
+    println!("MIRI-SUMMARY cases=9 searches=126 scope=race(3 real threads x 3 kinds x both variants)");
+}
+
 fn main() {
     let args: Vec<String> = std::env::args().collect();
+    if args.get(1).map(String::as_str) == Some("race") {
+        race();
+        return;
+    }
     let maxlen: usize = args.get(1).and_then(|s| s.parse().ok()).unwrap_or(2);
     let k: usize = args.get(2).and_then(|s| s.parse().ok()).unwrap_or(2);
     let n: usize = args.get(3).and_then(|s| s.parse().ok()).unwrap_or(3);
